@@ -7,6 +7,7 @@ model was ported from; `./check` never consults it for a verdict.
 from __future__ import annotations
 
 CACHE = "_attrs_cached_hash"
+EXC = [False]      # the chain under evaluation is rooted at `Exception` and every attrs class has auto_exc=True
 
 
 # ------------------------------------------------------------------------------------------- collection
@@ -61,7 +62,7 @@ def slot_names(chain):
 
 
 def has_dict(chain):
-    return any(not c["slots"] for c in chain)
+    return EXC[0] or any(not c["slots"] for c in chain)      # BaseException instances always have a __dict__
 
 
 def eff_frozen(prefix):
@@ -181,7 +182,7 @@ def resolve_gs(chain):
 
 def hash_decision(chain, k):
     c = chain[k]
-    if not is_attrs(c):
+    if not is_attrs(c) or EXC[0]:          # auto_exc: neither __eq__ nor __hash__ is generated
         return "inherit"
     if c["unsafeHash"]:
         return "gen"
@@ -201,6 +202,8 @@ def resolve_hash(chain):
 
 
 def resolve_eq(chain):
+    if EXC[0]:
+        return None
     for k in range(len(chain) - 1, -1, -1):
         if is_attrs(chain[k]) and chain[k]["eq"]:
             return k
@@ -411,7 +414,43 @@ def history(case):
     return orig
 
 
+def arg_tok(case, n):
+    """what `args` holds for init field n when the exception is copied: the value stored at construction; an
+    in-place change of that object is visible through it, a later assignment is not"""
+    return ("m_" if case.get("mutate") == n and case.get("mutInPlace") else "v_") + n
+
+
+def exc_roundtrip(case, orig):
+    """BaseException.__reduce__: cls(*args), then __setstate__(__dict__) if there is a dict"""
+    chain = case["chain"]
+    L = layout(chain)
+    deep = case["op"] != "copy"
+    tr = sanitize if deep else (lambda v: v)
+    y = construct(chain, {n: arg_tok(case, n) for n in names(chain)}, False)
+    if y is None:
+        return "attributeError", None
+    st = [(n, tr(orig.dict[n])) for n in names(chain) if n in orig.dict]
+    kind, k = resolve_gs(chain)
+    if kind == "gen":
+        ns = names(chain[: k + 1])
+        for n, v in st:
+            if n in ns and not osetattr(L, y, n, v):
+                return "attributeError", None
+        if chain[k]["cacheHash"] and not osetattr(L, y, CACHE, ("none",)):
+            return "attributeError", None
+    elif kind == "user":
+        return "other", None
+    else:
+        if eff_frozen(chain) and st:
+            return "frozenInstance", None
+        for n, v in st:
+            if not osetattr(L, y, n, v):
+                return "attributeError", None
+    return None, y
+
+
 def wf(case):
+    EXC[0] = bool(case.get("exc"))
     chain = case["chain"]
     if not chain or not is_attrs(chain[-1]) or len(chain) > 3:
         return False
@@ -425,11 +464,17 @@ def wf(case):
             return False
         if any(n in (CACHE, "__weakref__", "__dict__") for n in c["plainSlots"]):
             return False
+        if EXC[0] and (c["userGS"] or c["gs"] == "f" or c["cacheHash"]):
+            return False
     m = case.get("mutate")
     if m is not None and m not in names(chain):
         return False
+    if case.get("mutInPlace") and (m is None or field_info(chain, m)["kind"] != "box"):
+        return False
     op = case["op"]
     if isinstance(op, dict) and "pickle" in op and op["pickle"]["proto"] > 5:
+        return False
+    if EXC[0] and isinstance(op, dict) and "legacy" in op:
         return False
     # every field is set on the constructed instance (before any later change)
     orig = construct(chain, {n: "v_" + n for n in names(chain)}, case["assignUnset"])
@@ -440,6 +485,7 @@ def wf(case):
 
 
 def model(case):
+    EXC[0] = bool(case.get("exc"))
     chain = case["chain"]
     L = layout(chain)
     obs = {"exc": None, "distinct": False, "sameClass": False, "fields": [], "aliased": [],
@@ -449,6 +495,8 @@ def model(case):
     op = case["op"]
     if isinstance(op, dict) and "legacy" in op:
         exc, cp = legacy(chain, op["legacy"]["len"])
+    elif EXC[0]:
+        exc, cp = exc_roundtrip(case, orig)
     else:
         exc, cp = roundtrip(chain, orig, op)
     if exc is not None:
